@@ -2,6 +2,9 @@
 
 SK_TO_PK = '''
         ensures /*@C03 C01*/ r.ser() == Self::s_pk_of(sk.ser())'''
+DH = '''
+        ensures /*@C10 C03*/ r is Ok <==> Self::s_dh(sk.ser(), pk.ser()) is Some,
+                /*@C03 C01*/ r is Ok ==> r.unwrap().ser() == Self::s_dh(sk.ser(), pk.ser()).unwrap()'''
 DERIVE = '''
         ensures /*@C03 C02*/ (r.0.ser(), r.1.ser()) == Self::s_derive(nh_of::<Kdf::HashImpl>(), suite_id@, ikm@),
                 /*@C03*/ r.1.ser() == Self::s_pk_of(r.0.ser())'''
@@ -20,9 +23,6 @@ def apply(F):
     spec fn s_derive(nh: nat, suite_id: Bytes, ikm: Bytes) -> (Bytes, Bytes);
 ''')
     F.contract(T, r'fn sk_to_pk\b', ret='r', clauses=SK_TO_PK + '\n')
-    F.contract(T, r'fn dh\b', ret='r', clauses='''
-        ensures /*@C10 C03*/ r is Ok <==> Self::s_dh(sk.ser(), pk.ser()) is Some,
-                /*@C03 C01*/ r is Ok ==> r.unwrap().ser() == Self::s_dh(sk.ser(), pk.ser()).unwrap()
-''')
+    F.contract(T, r'fn dh\b', ret='r', clauses=DH + '\n')
     F.contract(T, r'fn derive_keypair<Kdf: KdfTrait>', ret='r', clauses='\n        requires kdf_ok::<Kdf>(),' + DERIVE + '\n')
     F.wrap([], T[0])
